@@ -1,5 +1,6 @@
 """C16 -- read_asdf returns exactly the requested particle columns."""
 import ast
+import os
 
 from ..core.srcmodel import clone, dotted, unparse, walk_no_nested, AnalysisError, names_in, stores_in, fold_str, clone_pos
 
@@ -163,8 +164,33 @@ def run(chk):
         if 'pid' in cn:
             out += ['pid']
         return tuple(out)
+    # literal module constants of read_abacus.py and of the sibling modules it imports names from (from .bitpacked import PID_FIELDS)
+    modconsts = {}
+
+    def _literals(tree_, only=None):
+        for st_ in tree_.body:
+            if isinstance(st_, ast.Assign) and len(st_.targets) == 1 and isinstance(st_.targets[0], ast.Name) and (only is None or st_.targets[0].id in only):
+                try:
+                    modconsts[only.get(st_.targets[0].id, st_.targets[0].id) if only else st_.targets[0].id] = ast.literal_eval(st_.value)
+                except (ValueError, SyntaxError):
+                    pass
+    for st_ in src.tree(RA).body:
+        if isinstance(st_, ast.ImportFrom) and st_.level == 1 and st_.module:
+            rel_ = os.path.join(os.path.dirname(RA), st_.module + '.py')
+            if src.exists(rel_):
+                _literals(src.tree(rel_), {a_.name: (a_.asname or a_.name) for a_ in st_.names})
+    _literals(src.tree(RA))
     bad, ncase, undec = [], 0, []
-    for cn, load, lp, lv in itertools.product(('rvint', 'pack9', 'packedpid', 'pid'), (None, ('pos',), ('vel', 'pid'), (), ('pid', 'aux'), ('aux',), ('vel', 'pos'), ('lagr_pos', 'density')), (None, True, False), (None, True, False)):
+    # every name the resolver could possibly let through is also asked for on its own and next to a valid one: string literals of the
+    # resolver, of the constants it reads, and of the decoders' field lists
+    universe = {c_.value for c_ in ast.walk(rc) if isinstance(c_, ast.Constant) and isinstance(c_.value, str) and c_.value.isidentifier()}
+    for v_ in modconsts.values():
+        if isinstance(v_, (list, tuple)) and all(isinstance(x_, str) for x_ in v_):
+            universe |= set(v_)
+    universe |= set().union(*SUPPLY.values())
+    universe -= {'load_pos', 'load_vel', 'rvint', 'pack9', 'pid', 'pos', 'vel'} - set().union(*SUPPLY.values())
+    singles = tuple((u_,) for u_ in sorted(universe)) + tuple(('pid', u_) for u_ in sorted(universe) if u_ != 'pid')
+    for cn, load, lp, lv in itertools.product(('rvint', 'pack9', 'packedpid', 'pid'), (None, ('pos',), ('vel', 'pid'), (), ('pid', 'aux'), ('aux',), ('vel', 'pos'), ('lagr_pos', 'density')) + singles, (None, True, False), (None, True, False)):
         kwargs = {}
         if lp is not None:
             kwargs['load_pos'] = lp
@@ -172,7 +198,7 @@ def run(chk):
             kwargs['load_vel'] = lv
         pe = PE(modfuncs)
         try:
-            got = pe.run(rc.body, {argn[0]: cn, argn[1]: (list(load) if isinstance(load, tuple) and False else load), argn[2]: kwargs})
+            got = pe.run(rc.body, dict(modconsts, **{argn[0]: cn, argn[1]: (list(load) if isinstance(load, tuple) and False else load), argn[2]: kwargs}))
         except Raised as r:
             got = f'raises {r.kind}'
         except Undecided as u:
